@@ -231,6 +231,39 @@ func (fr *FnRun) callStatic(st *State, site ssa.Instruction, fn *ssa.Function, a
 		return
 	}
 	ctr := ex.DB.Contracts[key]
+	if ctr != nil && fr.ctr != nil && fn.Blocks != nil {
+		// `unfold <callee>` in the contract of the function under verification: the callee's body is
+		// executed at this call; a recursive call from inside that body is replaced by the callee's
+		// contract (induction hypothesis of a proof by structural induction)
+		for _, u := range fr.ctr.Unfold {
+			if sk := ShortKey(key); sk == u || strings.HasSuffix(sk, u) {
+				inside := false
+				for _, f := range st.inl {
+					if f == fn {
+						inside = true
+					}
+				}
+				if inside {
+					ex.Assumptions["recursive call of "+sk+" inside its unfolded body is replaced by its contract (induction hypothesis; termination of the recursion is argued, not checked)"] = true
+					fr.applyContract(st, site, ctr, fn, fn.Signature, args, k)
+				} else {
+					fr.inlineBody(st, fn, args, nil, depth+1, k)
+				}
+				return
+			}
+		}
+	}
+	if ctr != nil && ctr.Flags["inline"] != "" {
+		// a function inlined by contract flag that calls itself: the recursive call is replaced by
+		// its contract (the induction hypothesis of a proof by structural induction)
+		for _, f := range st.inl {
+			if f == fn {
+				ex.Assumptions["recursive call of "+ShortKey(key)+" inside its own inlined body is replaced by its contract (induction hypothesis; termination of the recursion is argued, not checked)"] = true
+				fr.applyContract(st, site, ctr, fn, fn.Signature, args, k)
+				return
+			}
+		}
+	}
 	if ctr != nil && ctr.Flags["inline"] == "" {
 		fr.applyContract(st, site, ctr, fn, fn.Signature, args, k)
 		return
@@ -310,7 +343,11 @@ func (fr *FnRun) inlineBody(st *State, fn *ssa.Function, args []Val, free []Val,
 		}
 	}
 	st.note("call " + fn.Name())
+	st.inl = append(st.inl[:len(st.inl):len(st.inl)], fn)
 	fr.runBlock(st, fn.Blocks[0], nil, depth, func(st2 *State, results []Val) {
+		if n := len(st2.inl); n > 0 {
+			st2.inl = st2.inl[: n-1 : n-1]
+		}
 		nv := make(map[ssa.Value]Val, len(callerVals))
 		for kk, vv := range callerVals {
 			nv[kk] = vv
